@@ -277,7 +277,7 @@ def run(tier, seed, replay=None):
         if tier == "quick" and not replay:
             quota, kept = {}, []
             for c, r, n in certs:          # CPU budget: at most 12 certificates per function go to Coq in the quick tier
-                if quota.get(c["fn"], 0) < 12 or c["stream"] == "corpus":
+                if quota.get(c["fn"], 0) < 10 or c["stream"] == "corpus":
                     quota[c["fn"]] = quota.get(c["fn"], 0) + 1
                     kept.append((c, r, n))
             certs = kept
